@@ -61,7 +61,7 @@ theorem inv_dead_end (c : Cfg) (s : St) (t : Nat) (w : Option Fid) (rest : List 
     (pcEnd : Pc) (h : Inv c s none) (hr : s.ready = (t, w) :: rest) (ht : s.tasks t = some x)
     (hend : pcEnd = .finished ∨ pcEnd = .cancelled) (hd : Doomed c s t x) (hnt : x.pc.terminal = false)
     (hw : ∀ f, waitingOn t x.pc = some f → w = some f)
-    (hst : x.pc = .start → w = none) :
+    (_hst : x.pc = .start → w = none) :
     Inv c { s with ready := rest,
                    tasks := upd s.tasks t (some { x with pc := pcEnd, mustCancel := false }),
                    syncing := syncAfterEnd x.pc s.syncing } none :=
@@ -109,7 +109,7 @@ theorem inv_live_end (c : Cfg) (s : St) (t : Nat) (w : Option Fid) (rest : List 
     (h : Inv c s none) (hr : s.ready = (t, w) :: rest) (ht : s.tasks t = some x)
     (hl : Live c s t x)
     (hw : ∀ f, waitingOn t x.pc = some f → w = some f)
-    (hst : x.pc = .start → w = none)
+    (_hst : x.pc = .start → w = none)
     (hvq : ∀ q, q ≠ x.param → vals' q = s.vals q)
     (hco : x.kind = .coro → s.futs (t, 0) = .done (vals' x.param))
     (hge : ∀ n, x.kind = .agen n → 0 < n → s.futs (t, n - 1) = .done (vals' x.param)) :
@@ -553,7 +553,7 @@ theorem inv_clear_none (c : Cfg) (s : St) (p : Nat) (h : Inv c s none)
 /-- the registered task is suspended on a pending future: `cancel()` cancels that future and queues
 the wake-up -/
 theorem inv_clear_fut (c : Cfg) (s : St) (p u : Nat) (xu : Task) (f : Fid) (w : Option Nat) (h : Inv c s none)
-    (hD : c.startCheck = false → ∀ t x, s.tasks t = some x → x.param = p → x.pc ≠ .start)
+    (_hD : c.startCheck = false → ∀ t x, s.tasks t = some x → x.param = p → x.pc ≠ .start)
     (hu : s.asyncRefs p = some u) (hx : s.tasks u = some xu) (hwf : waitingOn u xu.pc = some f)
     (hf : s.futs f = .pending w) :
     Inv c { s with refs := upd s.refs p none, last := upd s.last p .never, asyncRefs := upd s.asyncRefs p none,
@@ -608,7 +608,7 @@ theorem inv_clear_fut (c : Cfg) (s : St) (p u : Nat) (xu : Task) (f : Fid) (w : 
 
 /-- the registered task is not suspended on a pending future (already woken): `_must_cancel` -/
 theorem inv_clear_must (c : Cfg) (s : St) (p u : Nat) (xu : Task) (h : Inv c s none)
-    (hD : c.startCheck = false → ∀ t x, s.tasks t = some x → x.param = p → x.pc ≠ .start)
+    (_hD : c.startCheck = false → ∀ t x, s.tasks t = some x → x.param = p → x.pc ≠ .start)
     (hu : s.asyncRefs p = some u) (hx : s.tasks u = some xu) :
     Inv c { s with refs := upd s.refs p none, last := upd s.last p .never, asyncRefs := upd s.asyncRefs p none,
                    tasks := upd s.tasks u (some { xu with mustCancel := true }) } none :=
